@@ -24,7 +24,7 @@ class C05(Prop):
     technique = "reference broadcast encoder -> loopback UDP -> running SwitcherBridge; callback-log monitor with unique tags and sentinel barriers; field-by-field oracle"
     rule = ("case = batch of 40 encoder-built broadcasts (all 9 types, both states) sent to a running bridge, closed by a sentinel broadcast; "
             "each of the 10 IPv4/MAC byte positions sweeps 0..255 across cases, names of 1..32 UTF-8 bytes in 5 scripts (every 7th exactly "
-            "32 bytes), power/time/temperature over their full ranges with edges, positions 0..100, all enumerants, random filler in non-field "
+            "32 bytes), every 8th broadcast re-sent unchanged (two deliveries expected), power/time/temperature over their full ranges with edges, positions 0..100, all enumerants, random filler in non-field "
             "bytes for half of them; distinct = (type, all field values); non-trivial = all (each is compared field by field)")
     level_text = ("Held-on-observed over tens of thousands of generated broadcasts through the real UDP path: exactly one delivery per "
                   "broadcast, of the class of its category, with every field equal to the encoder's input (OFF => power 0, current 0.0, "
@@ -68,6 +68,7 @@ class C05(Prop):
         log = self.rig.log
         log.clear()
         sent = {}
+        repeats = {}
         for k in range(BATCH):
             j = i * BATCH + k
             self.tag = (self.tag + 1) % udp.SENTINEL_BASE
@@ -77,6 +78,10 @@ class C05(Prop):
             data = rb.encode(d, filler=r.randbytes(168) if k % 2 else None)
             sent[tag] = (d, data)
             self.rig.send(self.port, data)
+            if k % 8 == 5:
+                # a device re-broadcasts its unchanged status: the very same bytes again are one more well-formed broadcast
+                self.rig.send(self.port, data)
+                repeats[tag] = repeats.get(tag, 1) + 1
         res = await self.rig.barrier(self.port)
         if res == "dropped":
             acc.count("batches_with_kernel_drops")
@@ -99,8 +104,12 @@ class C05(Prop):
             acc.count(f"sent_{d['model']}")
             acc.sig(env.sig(sorted((k, str(v)) for k, v in d.items() if k != "device_id")))
             devs = delivered.get(tag, [])
-            if len(devs) != 1:
-                acc.violation(f"delivered-{len(devs)}-times:{cat}", f"{d['model']} broadcast delivered {len(devs)} times; other events: {others[:3]}",
+            n_sent = repeats.get(tag, 1)
+            if n_sent > 1:
+                acc.ev(n_sent - 1)
+                acc.count("exact_repeats_sent", n_sent - 1)
+            if len(devs) != n_sent:
+                acc.violation(f"delivered-{len(devs)}-times-sent-{n_sent}:{cat}", f"{d['model']} broadcast sent {n_sent}x delivered {len(devs)} times; other events: {others[:3]}",
                               {"desc": d, "datagram": data.hex(), "events": [str(o) for o in others][:5]})
                 continue
             for field, got, want in rb.compare_device(devs[0], d):
